@@ -131,7 +131,19 @@ func run(c Case) kit.Outcome {
 		lisRet[i] = ch
 		srv := srvs[i]
 		go func() { ch <- srv.ListenWithOptions(addrs[i], opts) }()
-		return net.WaitListening(addrs[i], 5*time.Second)
+		if !net.WaitListening(addrs[i], 5*time.Second) {
+			return false
+		}
+		// "listening" on the network precedes the Server's own bookkeeping of its listener by a few
+		// instructions; a Server.Close in that window finds nothing to close. A served round trip
+		// proves the accept loop runs, which is what a user can observe before calling Close.
+		pc, err := rpc.DialWithOptions(addrs[i], opts)
+		if err != nil {
+			return false
+		}
+		perr := pc.Ping()
+		pc.Close()
+		return perr == nil
 	}
 	for i := 0; i < c.Servers; i++ {
 		envs[i] = kit.NewEnv()
